@@ -1874,6 +1874,18 @@ impl<'a> Socket<'a> {
             control = TcpControl::None;
         }
 
+        // Likewise, if the tail of the segment lies beyond the window we advertised, the
+        // octets preceding the FIN have been trimmed off above and are not received yet,
+        // so the FIN must not be processed either; the remote will retransmit it.
+        if control == TcpControl::Fin && segment_end > window_end {
+            tcp_trace!(
+                "ignoring FIN because the segment exceeds the receive window. segment_end={} window_end={}",
+                segment_end,
+                window_end
+            );
+            control = TcpControl::None;
+        }
+
         // Validate and update the state.
         match (self.state, control) {
             // RSTs are not accepted in the LISTEN state.
